@@ -341,10 +341,10 @@ fn big_nk() -> impl Strategy<Value = (u64, u64)> {
 
 pub fn run(run: &mut Run) {
     run.technique = "bounded exhaustive enumeration of all (n,k) up to a bound x level grid x kinds x front-ends + proptest random (n,k) up to 2^64; oracle = closed-form Wilson roots with an independent normal quantile, score-equation residual, Wald formula, integer domain rules, bit-equality across front-ends".into();
-    run.rule = "every (n,k), 0 <= k <= n+1, n <= N (quick 400, thorough 2500) x 8 levels x 3 kinds through ci_wilson and ci_z_normal; all ten other front-ends for n <= 60 (quick) / 150 (thorough) and sampled beyond; random (n,k) up to usize::MAX with random confidences; is_significant on the whole grid; non-trivial = admissible counts (2 <= k <= n-2, resp. k >= 10 and n-k >= 10 for Wald); each enumerated case is distinct by construction".into();
+    run.rule = "every (n,k), 0 <= k <= n+1, n <= N (quick 600, thorough 4000) x 8 levels x 3 kinds through ci_wilson and ci_z_normal; all ten other front-ends for n <= 80 (quick) / 200 (thorough) and sampled beyond; random (n,k) up to usize::MAX with random confidences; is_significant on the whole grid; non-trivial = admissible counts (2 <= k <= n-2, resp. k >= 10 and n-k >= 10 for Wald); each enumerated case is distinct by construction".into();
     crate::meanref::selftest_into(run);
-    let nmax: u64 = run.tier.pick(400, 2500);
-    let front_nmax: u64 = run.tier.pick(60, 150);
+    let nmax: u64 = run.tier.pick(600, 4000);
+    let front_nmax: u64 = run.tier.pick(80, 200);
     let confs: Vec<(Conf, f64, f64)> = GRID_LEVELS
         .iter()
         .flat_map(|&l| (0u8..3).map(move |k| Conf::new(k, l)))
@@ -408,7 +408,7 @@ pub fn run(run: &mut Run) {
     run.exhaustive = true;
     run.exhaustive_parts.push(format!("all (n,k) with 0 <= k <= n+1, n <= {nmax} x 8 levels x 3 kinds for ci_wilson, ci_z_normal, ci, ci_wilson_ratio, Stats::new; data-driven front-ends for n <= {front_nmax}; is_significant on all k <= n"));
     // random beyond the grid
-    let cases = run.tier.pick(20_000u32, 400_000);
+    let cases = run.tier.pick(100_000u32, 4_000_000);
     let s = (big_nk(), crate::gen::conf(), prop::sample::select(vec![0u8, 1, 2, 9, WALD])).prop_map(|((n, k), conf, front)| Case { n, k, conf, front: if (k > n && front == 9) || (front == 2 && n > (1u64 << 50)) { 1 } else { front }, pattern: 0 });
     run.prop("random_big", cases, s, |c, obs| {
         obs.nontrivial(&(c.n, c.k, c.conf.kind, c.conf.l().to_bits(), c.front));
@@ -416,7 +416,7 @@ pub fn run(run: &mut Run) {
     });
     // data-driven front-ends on sampled larger n
     let s = (61u64..3000, any::<u64>(), crate::gen::conf(), 3u8..=8, 0u8..4).prop_map(|(n, r, conf, front, pattern)| Case { n, k: ((r as u128 * (n as u128 + 1)) >> 64) as u64, conf, front, pattern });
-    run.prop("random_front", run.tier.pick(3_000, 60_000), s, |c, obs| {
+    run.prop("random_front", run.tier.pick(10_000, 300_000), s, |c, obs| {
         obs.nontrivial(&(c.n, c.k, c.conf.kind, c.conf.l().to_bits(), c.front, c.pattern));
         case(c, obs)
     });
